@@ -468,6 +468,235 @@ def _inline_in_body(body: List[ast.stmt], resolve, depth=0) -> bool:
     return changed
 
 
+# ---------------------------------------------------------------------------------------------------------- context managers
+def _is_contextmanager(fn: ast.FunctionDef) -> bool:
+    return any(ast.unparse(d).split(".")[-1] == "contextmanager" for d in fn.decorator_list)
+
+
+def _rewrite_withs(body: List[ast.stmt], find_cm_func, find_cm_class) -> bool:
+    """`with helper(args): BODY` where helper is a *new* @contextmanager generator with one top-level `yield`, or a *new* class
+    with a trivial __enter__ : replaced by the code it stands for (the generator body around BODY; try/except built from
+    __exit__).  In place; returns True when something was rewritten."""
+    changed = False
+    i = 0
+    while i < len(body):
+        st = body[i]
+        for field in ("body", "orelse", "finalbody"):
+            sub = getattr(st, field, None)
+            if isinstance(sub, list) and sub and isinstance(sub[0], ast.stmt) and not isinstance(st, (ast.FunctionDef, ast.AsyncFunctionDef, ast.ClassDef)):
+                changed |= _rewrite_withs(sub, find_cm_func, find_cm_class)
+        if isinstance(st, ast.Try):
+            for h in st.handlers:
+                changed |= _rewrite_withs(h.body, find_cm_func, find_cm_class)
+        if isinstance(st, ast.With) and len(st.items) == 1 and isinstance(st.items[0].context_expr, ast.Call):
+            call = st.items[0].context_expr
+            target = st.items[0].optional_vars
+            new = None
+            gen = find_cm_func(call)
+            if gen is not None:
+                new = _expand_generator_cm(gen, call, st.body, target)
+            else:
+                klass = find_cm_class(call)
+                if klass is not None and target is None:
+                    new = _expand_class_cm(klass, call, st.body)
+            if new is not None:
+                for x in new:
+                    ast.copy_location(x, st)
+                    ast.fix_missing_locations(x)
+                body[i:i + 1] = new
+                changed = True
+                continue
+        i += 1
+    return changed
+
+
+def _expand_generator_cm(gen: ast.FunctionDef, call: ast.Call, with_body: List[ast.stmt], target) -> Optional[List[ast.stmt]]:
+    yields = [n for n in ast.walk(gen) if isinstance(n, (ast.Yield, ast.YieldFrom))]
+    if len(yields) != 1 or isinstance(yields[0], ast.YieldFrom):
+        return None
+    if any(isinstance(n, ast.Return) and n.value is not None for n in ast.walk(gen)):
+        return None
+    _Counter.n += 1
+    prefix = "__inl%d_" % _Counter.n
+    binding = _bind_args(gen, call, False, prefix)
+    if binding is None or any(p.startswith("*") for p, _ in binding):
+        return None
+    locals_ = _assigned_names(gen) | {p for p, _ in binding}
+    mapping = {nm: prefix + nm for nm in locals_}
+    pre = [ast.Assign(targets=[ast.Name(id=mapping[p], ctx=ast.Store())], value=v) for p, v in binding]
+    body = [copy.deepcopy(s) for s in gen.body
+            if not (isinstance(s, ast.Expr) and isinstance(s.value, ast.Constant) and isinstance(s.value.value, str))]
+
+    class _R(ast.NodeTransformer):
+        found = False
+
+        def visit_Name(self, node):
+            if node.id in mapping:
+                return ast.copy_location(ast.Name(id=mapping[node.id], ctx=node.ctx), node)
+            return node
+
+        def visit_ExceptHandler(self, node):
+            if node.name and node.name in mapping:
+                node.name = mapping[node.name]
+            self.generic_visit(node)
+            return node
+
+        def visit_Expr(self, node):
+            if isinstance(node.value, ast.Yield):
+                _R.found = True
+                out = []
+                if target is not None and node.value.value is not None:
+                    out.append(ast.Assign(targets=[copy.deepcopy(target)], value=self.visit(node.value.value)))
+                return out + list(with_body)
+            self.generic_visit(node)
+            return node
+
+        def visit_Return(self, node):
+            return ast.Pass()
+    r = _R()
+    _R.found = False
+    new_body: List[ast.stmt] = []
+    for s_ in body:
+        x = r.visit(s_)
+        new_body += x if isinstance(x, list) else [x]
+    if not _R.found:
+        return None      # the yield is not a statement of its own (x = yield ...): not handled
+    return pre + new_body
+
+
+def _expand_class_cm(klass: ast.ClassDef, call: ast.Call, with_body: List[ast.stmt]) -> Optional[List[ast.stmt]]:
+    meths = {n.name: n for n in klass.body if isinstance(n, ast.FunctionDef)}
+    init, enter, exit_ = meths.get("__init__"), meths.get("__enter__"), meths.get("__exit__")
+    if enter is None or exit_ is None or set(meths) - {"__init__", "__enter__", "__exit__"}:
+        return None
+    # __enter__ does nothing but `return self`
+    eb = [s_ for s_ in enter.body if not (isinstance(s_, ast.Expr) and isinstance(s_.value, ast.Constant))]
+    if not (len(eb) == 1 and isinstance(eb[0], ast.Return) and (eb[0].value is None or (isinstance(eb[0].value, ast.Name) and eb[0].value.id == enter.args.args[0].arg))):
+        return None
+    _Counter.n += 1
+    prefix = "__inl%d_" % _Counter.n
+    pre: List[ast.stmt] = []
+    fields: Dict[str, str] = {}
+    if init is not None:
+        binding = _bind_args(init, call, True, prefix)
+        if binding is None or any(p.startswith("*") for p, _ in binding):
+            return None
+        sname = init.args.args[0].arg
+        pmap = {p: prefix + p for p, _ in binding}
+        pre += [ast.Assign(targets=[ast.Name(id=pmap[p], ctx=ast.Store())], value=v) for p, v in binding]
+        for s_ in init.body:
+            if isinstance(s_, ast.Expr) and isinstance(s_.value, ast.Constant):
+                continue
+            # only `self.attr = <param or constant>`
+            if isinstance(s_, ast.Assign) and len(s_.targets) == 1 and isinstance(s_.targets[0], ast.Attribute) and isinstance(s_.targets[0].value, ast.Name) \
+                    and s_.targets[0].value.id == sname and isinstance(s_.value, (ast.Name, ast.Constant)):
+                fname = prefix + "f_" + s_.targets[0].attr
+                val = ast.Name(id=pmap[s_.value.id], ctx=ast.Load()) if isinstance(s_.value, ast.Name) and s_.value.id in pmap else copy.deepcopy(s_.value)
+                pre.append(ast.Assign(targets=[ast.Name(id=fname, ctx=ast.Store())], value=val))
+                fields[s_.targets[0].attr] = fname
+            else:
+                return None
+    elif call.args or call.keywords:
+        return None
+    a = exit_.args.args
+    if len(a) != 4:
+        return None
+    xself, xtype, xexc, xtb = [x.arg for x in a]
+    excname = prefix + "exc"
+
+    class _X(ast.NodeTransformer):
+        bad = False
+
+        def visit_Attribute(self, node):
+            if isinstance(node.value, ast.Name) and node.value.id == xself:
+                if node.attr in fields and isinstance(node.ctx, ast.Load):
+                    return ast.copy_location(ast.Name(id=fields[node.attr], ctx=ast.Load()), node)
+                _X.bad = True
+            self.generic_visit(node)
+            return node
+
+        def visit_Name(self, node):
+            if node.id == xexc:
+                return ast.copy_location(ast.Name(id=excname, ctx=node.ctx), node)
+            if node.id == xtype:
+                return ast.copy_location(ast.Call(func=ast.Name(id="type", ctx=ast.Load()), args=[ast.Name(id=excname, ctx=ast.Load())], keywords=[]), node)
+            if node.id == xtb:
+                return ast.copy_location(ast.Constant(value=None), node)
+            if node.id == xself:
+                _X.bad = True
+            return node
+
+        def visit_Return(self, node):
+            v = node.value
+            if v is None or (isinstance(v, ast.Constant) and not v.value):
+                return ast.copy_location(ast.Raise(exc=None, cause=None), node)      # not swallowed: propagate
+            if isinstance(v, ast.Constant) and v.value is True:
+                return ast.copy_location(ast.Pass(), node)
+            _X.bad = True
+            return node
+    _X.bad = False
+    xb = [copy.deepcopy(s_) for s_ in exit_.body if not (isinstance(s_, ast.Expr) and isinstance(s_.value, ast.Constant) and isinstance(s_.value.value, str))]
+    tx = _X()
+    hbody: List[ast.stmt] = []
+    for s_ in xb:
+        r = tx.visit(s_)
+        hbody += r if isinstance(r, list) else [r]
+    if _X.bad:
+        return None
+    if not hbody or not _terminal_any(hbody[-1]):
+        hbody.append(ast.Raise(exc=None, cause=None))       # falling off __exit__ returns None: the exception propagates
+    handlers = _split_conversion_handler(excname, hbody) or [
+        ast.ExceptHandler(type=ast.Name(id="BaseException", ctx=ast.Load()), name=excname, body=hbody)]
+    # the normal-exit call __exit__(None, None, None) does nothing observable for the shapes accepted above when its body
+    # only acts on a live exception; require that: every statement before the final return is an `if` on the exception
+    for s_ in exit_.body:
+        if isinstance(s_, ast.Expr) and isinstance(s_.value, ast.Constant):
+            continue
+        if isinstance(s_, ast.Return):
+            continue
+        if isinstance(s_, ast.If) and any(isinstance(n, ast.Name) and n.id in (xexc, xtype) for n in ast.walk(s_.test)):
+            continue
+        return None
+    tr = ast.Try(body=list(with_body), handlers=handlers, orelse=[], finalbody=[])
+    return pre + [tr]
+
+
+def _terminal_any(st: ast.stmt) -> bool:
+    if isinstance(st, (ast.Raise, ast.Return)):
+        return True
+    if isinstance(st, ast.If):
+        return bool(st.body) and bool(st.orelse) and _terminal_any(st.body[-1]) and _terminal_any(st.orelse[-1])
+    return False
+
+
+def _split_conversion_handler(excname: str, hbody: List[ast.stmt]) -> Optional[List[ast.ExceptHandler]]:
+    """`except BaseException as e: if isinstance(e, A) and not isinstance(e, B): raise X(...) from e; raise`
+    ==  `except B: raise` / `except A as e: raise X(...) from e`  (everything else propagates untouched)"""
+    if len(hbody) != 2 or not isinstance(hbody[0], ast.If) or hbody[0].orelse or not (isinstance(hbody[1], ast.Raise) and hbody[1].exc is None):
+        return None
+    test = hbody[0].test
+    conj = test.values if isinstance(test, ast.BoolOp) and isinstance(test.op, ast.And) else [test]
+    pos, neg = [], []
+    for c in conj:
+        inner, negated = c, False
+        if isinstance(c, ast.UnaryOp) and isinstance(c.op, ast.Not):
+            inner, negated = c.operand, True
+        if not (isinstance(inner, ast.Call) and isinstance(inner.func, ast.Name) and inner.func.id == "isinstance" and len(inner.args) == 2
+                and isinstance(inner.args[0], ast.Name) and inner.args[0].id == excname):
+            return None
+        (neg if negated else pos).append(inner.args[1])
+    if len(pos) != 1:
+        return None
+    body = hbody[0].body
+    if not body or not isinstance(body[-1], ast.Raise):
+        return None
+    out = []
+    for t in neg:
+        out.append(ast.ExceptHandler(type=copy.deepcopy(t), name=None, body=[ast.Raise(exc=None, cause=None)]))
+    out.append(ast.ExceptHandler(type=copy.deepcopy(pos[0]), name=excname, body=body))
+    return out
+
+
 def normalize_module_trees(modules: Dict[str, ast.Module]) -> List[str]:
     """Inline single-caller private helpers / closures in place. Returns a log of what was inlined."""
     log: List[str] = []
@@ -497,7 +726,19 @@ def normalize_module_trees(modules: Dict[str, ast.Module]) -> List[str]:
             if isinstance(n, (ast.FunctionDef, ast.AsyncFunctionDef)):
                 module_funcs.setdefault(n.name, []).append(mn)
 
-    from .known_names import KNOWN_NAMES
+    from .known_names import KNOWN_NAMES, KNOWN_CLASSES
+
+    def derives(sub: str, base: str, _seen=None) -> bool:
+        """does class *sub* (by name) derive from *base* inside the package?"""
+        _seen = _seen or set()
+        if sub in _seen or sub not in class_defs:
+            return False
+        _seen.add(sub)
+        for b in class_defs[sub].bases:
+            bn = b.id if isinstance(b, ast.Name) else (b.attr if isinstance(b, ast.Attribute) else None)
+            if bn == base or (bn and derives(bn, base, _seen)):
+                return True
+        return False
 
     def private(name: str) -> bool:
         """candidate for inlining: a private helper that is no rule anchor, or any function (public too) whose name did not
@@ -589,6 +830,11 @@ def normalize_module_trees(modules: Dict[str, ast.Module]) -> List[str]:
                             if not private(nm) or nm in non_call_refs:
                                 return None
                             owners = method_owner.get(nm) or []
+                            if cls.name in owners and len(owners) > 1:
+                                # also defined by unrelated classes: fine as long as no subclass of this class overrides it
+                                if any(o != cls.name and derives(o, cls.name) for o in owners):
+                                    return None
+                                owners = [cls.name]
                             if len(owners) != 1:
                                 return None
                             # defined in this class, or once in another class of the package (a base class / mixin)
@@ -600,6 +846,32 @@ def normalize_module_trees(modules: Dict[str, ast.Module]) -> List[str]:
                                 return d[0], False, None
                             return d[0], True, f.value
                         return None
+
+                    def find_cm_func(call, mn=mn, cls=cls, self_name=self_name):
+                        f = call.func
+                        if isinstance(f, ast.Name) and private(f.id):
+                            owners_m = module_funcs.get(f.id) or []
+                            if len(owners_m) == 1 and f.id not in method_owner:
+                                d = [n for n in modules[owners_m[0]].body if isinstance(n, ast.FunctionDef) and n.name == f.id]
+                                if d and _is_contextmanager(d[0]):
+                                    return d[0]
+                        if isinstance(f, ast.Attribute) and isinstance(f.value, ast.Name) and self_name and f.value.id == self_name and private(f.attr):
+                            owners = method_owner.get(f.attr) or []
+                            if len(owners) == 1:
+                                d = [n for n in class_defs[owners[0]].body if isinstance(n, ast.FunctionDef) and n.name == f.attr]
+                                if d and _is_contextmanager(d[0]) and "staticmethod" in [ast.unparse(x) for x in d[0].decorator_list]:
+                                    return d[0]
+                        return None
+
+                    def find_cm_class(call):
+                        f = call.func
+                        if isinstance(f, ast.Name) and f.id in class_defs and f.id not in KNOWN_CLASSES:
+                            return class_defs[f.id]
+                        return None
+                    if _rewrite_withs(fn.body, find_cm_func, find_cm_class):
+                        any_change = True
+                        log.append("%s.%s: expanded new context manager(s)" % (cls.name if cls else mn, fn.name))
+                        ast.fix_missing_locations(fn)
 
                     before = _Counter.n
                     ei = _ExprInliner(resolve)
